@@ -607,6 +607,15 @@ fn path_cases(k: i64, rng: &mut Rng) -> Vec<PathCase> {
         must: nonneg,
     });
     v.push(PathCase {
+        path: "bind_text_with_numeric_nonkey_param",
+        msgs: vec![
+            parse_message(stmt2),
+            bind_message(&[BindParam::Text("77".into()), BindParam::Text(ktxt.clone())], rng.chance(1, 2)),
+        ],
+        text: format!("{} / Bind text '77','{}'", stmt2, ktxt),
+        must: nonneg,
+    });
+    v.push(PathCase {
         path: "bind_text_insert",
         msgs: vec![
             parse_message(stmt3),
@@ -857,7 +866,7 @@ fn part_sequences(thorough: bool, seed: u64) -> Acc {
                 if let Some(m) = model {
                     if qr.shard() != Some(m) {
                         acc.violation(
-                            format!("C06|seq|step={}|after={}|outcome=selection_not_kept", name, prev),
+                            format!("C06|seq|step={}|outcome=selection_not_kept", name),
                             format!("sequence {:?} ({} shards): after `{}` QueryRouter::shard() = {:?}, expected {}", trace, n, text, qr.shard(), m),
                             json!({"trace": trace, "shards": n, "expected": m, "got": qr.shard()}),
                         );
